@@ -96,7 +96,7 @@ text = ("<!-- seeded:begin -->\n"
         "I confirmed every one myself in a scratch worktree (`tools/confirm_seeded.sh`): the patch applies to `/repo`'s HEAD,\n"
         "the whole baseline suite still passes with it, the demonstration fails with it and passes without it. The table is\n"
         "generated from `tools/matrix.sh` (each change applied to `/repo`'s working tree, the listed checks run, the tree\n"
-        "restored; for rounds 7 and 8 four such runs side by side, each in a scratch copy of `/verif` against its own worktree of\n"
+        "restored; for rounds 7 and 8 `tools/matrix_lanes.sh`: four such runs side by side, each in a scratch copy of `/verif` against its own worktree of\n"
         "`/repo`, development mode, no evidence written): **%d of %d are detected by their own property's check** (quick tier, default seed).\n\n" % (len(rows), own_ok, len(rows))
         + "\n".join(tbl) + "\n\n" + NOTDET +
         "<!-- seeded:end -->")
